@@ -1259,6 +1259,9 @@ package avro
 //@   loop 1 invariant [C12] regFree()
 //@   loop 1 decreases len(schema.Union) - rangeindex
 
+// trusted (reflect.StructField is outside the subset; a bounded stand-in runs on the real code).  Scope of the contract:
+// record schemas whose field names are pairwise distinct.  With a repeated name both schema fields get the offset of the
+// same struct field, so disjointFields (part of wfc) does not hold for them.
 //@ func buildRecordCodec
 //@   props C12
 //@   requires typ != nil ==> data(typ) != nil
